@@ -152,6 +152,7 @@ type Ctx struct {
 	curResults     []types.Object
 	resTypes       []types.Type
 	panicOK        string
+	caseExitAll    bool
 	ifaceNil       bool
 	nilPanics      bool
 	assumeAsserts  bool
